@@ -79,6 +79,30 @@ partial def jsonOfJ : J → Json
   | .arr l => .arr (l.map jsonOfJ).toArray
   | .obj kv => Json.mkObj (kv.map (fun (k, v) => (k, jsonOfJ v)))
 
+partial def specOfJson (j : Json) : D PM.Dom.Spec := do
+  let a ← arr j
+  match ← str a[0]! with
+  | "s" => return .str (← str a[1]!).toList
+  | "h" => return .hole
+  | "e" =>
+    let attrs ← listOf (fun p => do
+      let q ← arr p
+      let v ← match q[1]! with
+        | .null => pure none
+        | x => do pure (some (← str x).toList)
+      return ((← str q[0]!).toList, v)) a[2]!
+    return .el (← str a[1]!).toList attrs (← listOf specOfJson a[3]!)
+  | t => throw s!"bad spec tag {t}"
+
+partial def snodeOfJson (j : Json) : D PM.Dom.SNode := do
+  let marks ← listOf (fun m => do
+    let q ← arr m
+    let sp ← match q[1]! with
+      | .null => pure none
+      | x => do pure (some (← specOfJson x))
+    return (← nat q[0]!, sp, ← bool q[2]!)) (← field j "marks")
+  return .mk marks (← specOfJson (← field j "spec")) (← listOf snodeOfJson (← field j "kids"))
+
 partial def reToLean : RE → String
   | .eps => "RE.eps"
   | .sym t => s!"(RE.sym {t})"
@@ -427,6 +451,10 @@ def handle (st : St) (j : Json) : D (St × Json) := do
       let b ← nat (← field j "b")
       return (st, ok (Json.arr (steps.map (fun s => Json.bool (isoSafe a b s))).toArray))
     | _ => throw "bad monitor kind"
+  -- ---------------- C19: HTML serializer
+  | "serialize" =>
+    let kids ← listOf snodeOfJson (← field j "kids")
+    return (st, ok (Json.str (String.ofList (PM.Dom.serialize kids))))
   | "toks" =>
     let d ← node (← field j "doc")
     return (st, ok (jn d.toks.length))
